@@ -33,7 +33,7 @@ def gen_program(rng, role):
 
 
 def gen(rng, tier, open_keys):
-    n = 600 if tier == "quick" else 40000
+    n = 3000 if tier == "quick" else 40000
     out = []
     for _ in range(n):
         nthreads = rng.choice([2, 3, 3, 4, 5])
